@@ -135,7 +135,11 @@ def wl_snapshots(ctx, rng, case):
     d1 = os.path.join(sc.dir, "here")
     os.makedirs(d1, exist_ok=True)
     path = os.path.join(d1, "filter.blm")
-    case.desc = {"est": est, "rate": rate, "bits": m, "hashes": k, "n_keys": len(keys)}
+    # the same directory is also reachable through a symbolic link ("current" -> "here"): another spelling of every path in it
+    os.symlink("here", os.path.join(sc.dir, "current"))
+    lpath = os.path.join(sc.dir, "current", "filter.blm")
+    via_link = rng.random() < 0.4
+    case.desc = {"est": est, "rate": rate, "bits": m, "hashes": k, "n_keys": len(keys), "opened_through_a_symlinked_directory": via_link}
     ctx.observe("bits_mod_8", m % 8)
     f = None
     snap = None
@@ -143,6 +147,10 @@ def wl_snapshots(ctx, rng, case):
         form = rng.choice(["abs", "rel_same_dir", "rel_other_dir"])
         os.chdir(d1 if form == "rel_same_dir" else (sc.other if form == "rel_other_dir" else cwd0))
         given = path if form == "abs" else os.path.relpath(path, os.getcwd())
+        if via_link:
+            given = lpath if form == "abs" else os.path.relpath(lpath, sc.other if form == "rel_other_dir" else sc.dir)
+            os.chdir(sc.other if form == "rel_other_dir" else (sc.dir if form != "abs" else cwd0))
+            ctx.count("histories_opened_through_a_symlinked_directory")
         # a third of the histories run with a supplied hash strategy (re-supplied at every reopen)
         hname, hf = gen.pick_hash(rng, keys) if rng.random() < 0.35 else ("library_default", None)
         case.desc["hash"] = hname
@@ -205,7 +213,11 @@ def wl_snapshots(ctx, rng, case):
             elif r < 0.69:
                 # export to the filter's OWN backing file, named absolutely or relatively: documented as "nothing to do"; the file stays current
                 os.chdir(rng.choice([d1, sc.other]))
-                own = rng.choice([path, os.path.relpath(path, os.getcwd()), os.path.join(os.path.relpath(os.path.dirname(path), os.getcwd()), ".", os.path.basename(path))])
+                own = rng.choice([path, os.path.relpath(path, os.getcwd()), os.path.join(os.path.relpath(os.path.dirname(path), os.getcwd()), ".", os.path.basename(path)),
+                                  lpath, os.path.relpath(lpath, sc.other), os.path.join(sc.dir, "here", "..", "current", "filter.blm")])
+                if "current" in own:
+                    os.chdir(sc.other)
+                    ctx.count("exports_to_own_file_spelled_through_a_symlink")
                 case.op("export-to-own-file", own)
                 snap.label = "export to own file"
                 with linehook.on_every_line(snap):
@@ -239,6 +251,9 @@ def wl_snapshots(ctx, rng, case):
                 form = rng.choice(["abs_other_cwd", "abs_same_cwd", "rel_other_cwd", "rel_same_cwd"])
                 os.chdir(d1 if form.endswith("same_cwd") else sc.other)
                 given = path if form.startswith("abs") else os.path.relpath(path, os.getcwd())
+                if rng.random() < 0.3:
+                    given = lpath if form.startswith("abs") else os.path.relpath(lpath, sc.other)
+                    os.chdir(sc.other)
                 f = P.BloomFilterOnDisk(given, **bl.kw_hash(hf))
                 os.chdir(rng.choice([cwd0, sc.other, d1]))
                 ctx.check(f.elements_added == orc.completed, f"reopened filter ({form}) reports another element count", got=f.elements_added, want=orc.completed)
@@ -629,6 +644,7 @@ PROP = Prop(
                  "the hook is armed during add / export / close; creation, reopen and clear are checked at call boundaries only"],
     finish=finish,
     required=["crash_points", "distinct_file_states_validated", "real_kills_validated", "reopens", "exports_under_snapshots", "closes_under_snapshots",
-              "same_relative_name_cases", "reopen.rel_other_cwd", "reopen.abs_other_cwd", "large_file_cases", "refused_additions", "exports_to_own_file"],
+              "same_relative_name_cases", "reopen.rel_other_cwd", "reopen.abs_other_cwd", "large_file_cases", "refused_additions", "exports_to_own_file", "exports_to_own_file_spelled_through_a_symlink",
+              "histories_opened_through_a_symlinked_directory"],
     shards={"quick": 4, "thorough": 16},
 )
